@@ -98,10 +98,12 @@ def qmarkAfterPlain (w : Str) : Bool :=
   !x.isEmpty && (w.drop x.length).head? == some '?'
 
 /-- starts like a `NUM_VALUE` once printed by `lucene_escape` (`-` is printed `\-`) -/
-def numStart : Str → Bool
-  | '-' :: d :: _ => isAsciiDigit d
-  | d :: _ => isAsciiDigit d
+def numStart (s : Str) : Bool :=
+  match s with
   | [] => false
+  | c :: r =>
+    if c = '-' then (match r with | [] => false | d :: _ => isAsciiDigit d)
+    else isAsciiDigit c
 
 /-! ### leaf defects, in reporting order -/
 
